@@ -104,6 +104,9 @@ def alphabet(tier, expanded, extent_a):
     for x in sorted(extent_a)[:2 if tier == "quick" else 3]:
         ev.append(["drop", x])
     ev.append(["new_session"])
+    # a session that names the other engine for the same (explicit) file
+    # name: it cannot read the data and must not touch it
+    ev.append(["foreign"])
     # a second, long-lived Harvester on the same data name (sessions
     # alternate, they do not overlap)
     for r in range(min(nreg, 3)):
@@ -162,7 +165,11 @@ class World:
     def new_harvester(self, version=0):
         import xyzpy as xyz
 
-        r = xyz.Runner(self.fs[version], var_names="out")
+        # (attributes: a bool and None - rewritten as strings in a netCDF
+        # file - and one that differs between the two function versions)
+        r = xyz.Runner(self.fs[version], var_names="out",
+                       attrs={"flag": True, "nothing": None,
+                              "tag": "v%d" % version})
         return xyz.Harvester(r, data_name=self.path, engine=self.cfg["engine"],
                              chunks=self.cfg.get("chunks"))
 
@@ -362,6 +369,34 @@ class World:
         elif kind == "new_session":
             self.h = self.new_harvester()
             m.mem = None
+        elif kind == "foreign":
+            if m.disk is None or "." not in self.cfg["name"]:
+                return vio
+            other = {"joblib": "h5netcdf", "h5netcdf": "joblib"}[
+                self.cfg["engine"]]
+            with open(self.path, "rb") as fh:
+                before = fh.read()
+            hf = xyz.Harvester(xyz.Runner(self.fs[1], var_names="out"),
+                               data_name=self.path, engine=other)
+            try:
+                hf.harvest_combos({"a": [1, 7], "b": [10]}, verbosity=0)
+                raised = False
+            except Exception:
+                raised = True
+            with open(self.path, "rb") as fh:
+                after = fh.read()
+            if after != before or not raised:
+                vio.append(("foreign-session", "a Harvester naming engine %r "
+                            "for the %s file %s: the file %s" % (
+                                other, self.cfg["engine"],
+                                "raised" if raised else "harvested as if "
+                                "nothing had been stored",
+                                "was rewritten" if after != before
+                                else "is unchanged")))
+                # (put the data back so that later observations are about
+                # later steps)
+                with open(self.path, "wb") as fh:
+                    fh.write(before)
         else:
             raise core.HarnessError("unknown event %r" % (ev,))
         return vio
